@@ -185,7 +185,6 @@ fn announce_step(with_suffix: bool) {
         state.poke().parent_ds.parent_port_identity = remote;
     }
     let a = any_announce();
-    kani::assume(a.steps_removed < 65535);
     let src = a.header.source_port_identity;
     // concrete suffix: one propagating TLV (ORGANIZATION_EXTENSION_PROPAGATE, 2 octets) and one that is not (MANAGEMENT, 2 octets);
     // arbitrary suffixes are decided at iterator level by c15_receive_forwarding
@@ -206,7 +205,10 @@ fn announce_step(with_suffix: bool) {
     let before = snapshot(&port);
     let msg = announce_message(&a, suffix);
     let r = drain_announce(port.handle_announce(&msg, a), src);
-    let from_parent = code == ST_SLAVE && src == pre_parent_id;
+    // stepsRemoved >= 255 can never qualify; what such an Announce from the parent does to the data sets is not
+    // prescribed (C11 quantifies over 0..=254), only that it neither panics nor is recorded
+    let from_parent = code == ST_SLAVE && src == pre_parent_id && a.steps_removed < 255;
+    let unspecified = code == ST_SLAVE && src == pre_parent_id && a.steps_removed >= 255;
     let acceptable = cfg.accept.all || src.clock_identity == cfg.accept.a || src.clock_identity == cfg.accept.b;
     let accepted = acceptable && src != cfg.identity();
     let st = state.peek();
@@ -222,7 +224,7 @@ fn announce_step(with_suffix: bool) {
             && tp.frequency_traceable == a.header.frequency_tracable && tp.time_source == a.time_source, "C11: timePropertiesDS does not follow the parent's Announce");
         assert!((tp.leap_indicator == crate::config::LeapIndicator::Leap59) == a.header.leap59);
         assert!((tp.leap_indicator == crate::config::LeapIndicator::Leap61) == (a.header.leap61 && !a.header.leap59));
-    } else {
+    } else if !unspecified {
         assert!(st.parent_ds == pre_parent && st.current_ds == pre_current && st.time_properties_ds == pre_tp, "C07/C11: data sets changed by an Announce that is not from the parent");
     }
     assert!(st.default_ds == before_default(&before));
@@ -245,8 +247,14 @@ fn announce_step(with_suffix: bool) {
             k += 1;
         }
         assert!(r.fwd == want && r.fwd_sender_ok, "C15: set of TLVs offered for forwarding != propagating TLVs of the Announce");
-        let qualified = src.clock_identity != own_clock && a.steps_removed < 255;
-        assert!(crate::bmc::bmca::verif_bmca::fm_len(&port.bmca) == (qualified as usize), "foreign master record");
+        // handed to the foreign-master list exactly once, as received, with age zero (what the list does with it:
+        // c07_foreign_master_registration)
+        let _ = own_clock;
+        assert!(crate::bmc::foreign_master::verif_fm::reg_count() == 1, "accepted Announce must be registered exactly once");
+        match crate::bmc::foreign_master::verif_fm::reg_last() {
+            Some((h, m, age)) => assert!(h == a.header && m == a && age == Duration::ZERO, "registered Announce differs from the received one"),
+            None => panic!("not registered"),
+        }
         // same-instance port on the segment: the higher-numbered port goes passive
         let sibling = src.clock_identity == cfg.identity().clock_identity && cfg.port_number > src.port_number;
         if sibling {
@@ -259,7 +267,7 @@ fn announce_step(with_suffix: bool) {
         kani::cover!(sibling, "multiport disable");
     } else {
         assert!(r.n == 0, "C07: rejected Announce produced actions");
-        assert!(crate::bmc::bmca::verif_bmca::fm_len(&port.bmca) == 0 && state_code(&port.port_state) == code);
+        assert!(crate::bmc::foreign_master::verif_fm::reg_count() == 0 && state_code(&port.port_state) == code, "C07: rejected Announce reached the foreign-master list");
     }
     assert!(port.clock.commands() == 0 && port.filter.count == 0);
     assert!(port.instance_state.is_free());
@@ -284,13 +292,15 @@ fn announce_step(with_suffix: bool) {
 #[kani::stub(crate::time::Interval::as_core_duration, crate::verif_root::stubs::as_core_duration_int)]
 #[kani::stub(core::time::Duration::mul_f64, crate::verif_root::stubs::mul_f64_contract)]
 #[kani::stub(core::mem::swap, super::common::swap_stub)]
+#[kani::stub(crate::bmc::foreign_master::ForeignMasterList::register_announce_message, crate::bmc::foreign_master::verif_fm::register_rec)]
 fn c11_handle_announce() { announce_step(true) }
 
 // @harness c15_receive_forwarding
 // @props C15 C03
 // @tier quick
 // @variant lists2
-// @timeout 1200
+// @timeout 1800
+// @mem 16
 // @functions PortActionIterator::next, PortActionIterator::with_forward_tlvs, TlvSetIterator::next, Tlv::deserialize, TlvType::from_primitive, TlvType::announce_propagate, TlvSet::deserialize
 // @bounds the action iterator handle_announce returns for an accepted Announce, over any well-formed TLV suffix of <= 12 octets (<= 3 TLVs, all 2^16 types, any even lengths) and any sender identity
 // @note handle_announce attaching exactly message.suffix.tlv() with the sender's identity (and only for accepted Announces) is decided by c11_handle_announce on a concrete suffix
@@ -383,7 +393,7 @@ fn path_trace_case(entries: usize, own_at: Option<usize>) {
     if own_at.is_some() {
         // C15: an Announce from the parent whose path already contains our identity is discarded
         assert!(r.n == 0, "C15: looped Announce produced actions");
-        assert!(crate::bmc::bmca::verif_bmca::fm_len(&port.bmca) == 0, "C15: looped Announce was registered");
+        assert!(crate::bmc::foreign_master::verif_fm::reg_count() == 0, "C15: looped Announce was registered");
         assert!(st.path_trace_ds.list.len() == 1 && st.path_trace_ds.list[0] == pre_path0, "C15: looped path was stored");
         assert!(st.parent_ds == pre_parent && st.current_ds == pre_current && st.time_properties_ds == pre_tp,
             "C15: a discarded (looped) Announce changed the data sets");
@@ -417,6 +427,7 @@ fn path_trace_case(entries: usize, own_at: Option<usize>) {
 #[kani::stub(crate::time::Interval::as_core_duration, crate::verif_root::stubs::as_core_duration_int)]
 #[kani::stub(core::time::Duration::mul_f64, crate::verif_root::stubs::mul_f64_contract)]
 #[kani::stub(core::mem::swap, super::common::swap_stub)]
+#[kani::stub(crate::bmc::foreign_master::ForeignMasterList::register_announce_message, crate::bmc::foreign_master::verif_fm::register_rec)]
 fn c15_path_trace_stored() { path_trace_case(3, None) }
 
 // @harness c15_path_trace_loop
@@ -434,6 +445,7 @@ fn c15_path_trace_stored() { path_trace_case(3, None) }
 #[kani::stub(crate::time::Interval::as_core_duration, crate::verif_root::stubs::as_core_duration_int)]
 #[kani::stub(core::time::Duration::mul_f64, crate::verif_root::stubs::mul_f64_contract)]
 #[kani::stub(core::mem::swap, super::common::swap_stub)]
+#[kani::stub(crate::bmc::foreign_master::ForeignMasterList::register_announce_message, crate::bmc::foreign_master::verif_fm::register_rec)]
 fn c15_path_trace_loop() { path_trace_case(3, Some(1)) }
 
 // @harness c15_path_trace_over_capacity
@@ -451,6 +463,7 @@ fn c15_path_trace_loop() { path_trace_case(3, Some(1)) }
 #[kani::stub(crate::time::Interval::as_core_duration, crate::verif_root::stubs::as_core_duration_int)]
 #[kani::stub(core::time::Duration::mul_f64, crate::verif_root::stubs::mul_f64_contract)]
 #[kani::stub(core::mem::swap, super::common::swap_stub)]
+#[kani::stub(crate::bmc::foreign_master::ForeignMasterList::register_announce_message, crate::bmc::foreign_master::verif_fm::register_rec)]
 fn c15_path_trace_over_capacity() { path_trace_case(17, None) }
 
 // @harness c11_parent_announce_steps_65535
@@ -468,6 +481,7 @@ fn c15_path_trace_over_capacity() { path_trace_case(17, None) }
 #[kani::stub(crate::time::Interval::as_core_duration, crate::verif_root::stubs::as_core_duration_int)]
 #[kani::stub(core::time::Duration::mul_f64, crate::verif_root::stubs::mul_f64_contract)]
 #[kani::stub(core::mem::swap, super::common::swap_stub)]
+#[kani::stub(crate::bmc::foreign_master::ForeignMasterList::register_announce_message, crate::bmc::foreign_master::verif_fm::register_rec)]
 fn c11_parent_announce_steps_65535() {
     let state = any_state(0);
     state.poke().path_trace_ds.enable = false;
@@ -485,7 +499,7 @@ fn c11_parent_announce_steps_65535() {
     // an Announce that can never qualify (stepsRemoved >= 255) must not turn into stepsRemoved 0 (wrap) in our own Announces
     let post = state.peek().current_ds.steps_removed;
     assert!(post == pre_steps || post == 65535, "C11: stepsRemoved wrapped around");
-    assert!(crate::bmc::bmca::verif_bmca::fm_len(&port.bmca) == 0, "unqualified Announce must not be recorded");
+    // (whether the list records it is decided by c07_foreign_master_registration: stepsRemoved >= 255 never is)
     let _ = r;
     kani::cover!(true, "handled without panic");
     core::mem::forget(port);
